@@ -276,6 +276,14 @@ var statuses = []int{200, 404, 428, 429, 430, 499, 500, 501, 502, 503, 599, 600}
 func genFlowsEngine(r *prng.R, ln int) []string {
 	lohi := prng.Pick(r, [][2]int{{500, 599}, {500, 502}, {429, 429}, {100, 599}})
 	ops := []string{fmt.Sprintf("fmode mode=engine timeout=%d lo=%d hi=%d", prng.Pick(r, []int{0, 30, 1000}), lohi[0], lohi[1])}
+	if r.Chance(40) {
+		// the Filter carries a second criterion (method) next to the status range; the range may then lie partly
+		// outside 100-599 or be reversed (it is still applied as a numeric filter)
+		if r.Chance(60) {
+			lohi = prng.Pick(r, [][2]int{{500, 600}, {429, 600}, {50, 599}, {599, 500}, {500, 1000}, {99, 600}})
+		}
+		ops[0] = fmt.Sprintf("fmode mode=engine timeout=%d lo=%d hi=%d fm=GET", prng.Pick(r, []int{0, 30, 1000}), lohi[0], lohi[1])
+	}
 	att := r.Range(1, 4)
 	if r.Chance(5) {
 		att = 0
